@@ -386,6 +386,111 @@ fn check_follow_ups(made: &Made, i: usize, s: &Svc, _obs: &[(u64, u64, &Obs)], l
     }
 }
 
+/// F2 for an instance that comes back: found through a lone PTR and resolved through the
+/// daemon's follow-up questions, withdrawn (goodbye) or expired, then announced again by a
+/// lone PTR. The second time round is a newly found instance like the first: the daemon has
+/// to ask again, and resolve when answered.
+pub fn second_life_case(seed: u64, l: &mut Local) {
+    let mut rng = Rng::new(seed);
+    let mut w = World::new(seed);
+    let stepping = if rng.chance(1, 4) { Stepping::Eager(10) } else { Stepping::Lazy };
+    w.set_stepping(stepping);
+    let sl = c03::slack(stepping);
+    let h = w.add_host(scen::single_v4());
+    w.set_ip_check_interval(h, 3600);
+    let Some(chan) = w.browse(h, browser::TY) else { return };
+    w.run_for(rng.below(600));
+    let mut s = Svc::new(browser::TY, "comeback", "comeback-host.local", [10, 0, 0, 33]);
+    let by_expiry = rng.chance(1, 3);
+    if by_expiry {
+        s.ttl_ptr = 3;
+        s.ttl_srv = 3;
+        s.ttl_txt = 3;
+        s.ttl_addr = 3;
+    }
+    let first_complete = rng.chance(1, 2); // first life: one complete announcement, or a lone PTR answered on request
+    let ptr_only = |s: &Svc| {
+        let mut m = Message::response();
+        m.answers.push(s.ptr());
+        m
+    };
+    let rest = |s: &Svc| {
+        let mut m = Message::response();
+        m.answers.push(s.srv());
+        m.answers.push(s.txt());
+        m.answers.extend(s.addrs());
+        m
+    };
+    // answers the daemon's questions about the instance (once per life)
+    let answer_when_asked = |w: &mut World, from: u64, until: u64| -> Option<u64> {
+        let mut asked = None;
+        let mut cb = |w: &mut World| {
+            if asked.is_none() {
+                let txs = scen::tx_msgs(&w.trace, 0);
+                if let Some(tx) = txs.iter().find(|tx| tx.t >= from && tx.msg.is_query() && (scen::has_question(tx.msg, &s.inst, wire::T_ANY) || scen::has_question(tx.msg, &s.inst, wire::T_SRV))) {
+                    asked = Some(tx.t);
+                    w.inject_msg(h, 2, scen::peer4(33), &rest(&s));
+                }
+            }
+            false
+        };
+        w.run_until_cb(until, &mut cb);
+        asked
+    };
+    let t1 = w.now();
+    if first_complete {
+        w.inject_msg(h, 2, scen::peer4(33), &s.announce());
+        w.run_for(1500);
+    } else {
+        w.inject_msg(h, 2, scen::peer4(33), &ptr_only(&s));
+        answer_when_asked(&mut w, t1, t1 + 2500);
+    }
+    // the end of the first life
+    if by_expiry {
+        w.run_for(4500);
+    } else {
+        w.run_for(500 + rng.below(2000));
+        w.inject_msg(h, 2, scen::peer4(33), &s.goodbye());
+        w.run_for(1500 + rng.below(2000));
+    }
+    // the second life: a lone PTR
+    let t2 = w.now();
+    w.inject_msg(h, 2, scen::peer4(33), &ptr_only(&s));
+    let asked = answer_when_asked(&mut w, t2, t2 + 2500);
+    w.run_for(1000);
+    l.evaluations += 1;
+    l.distinct.insert(util::fnv_str(&format!("second-life|{first_complete}|{by_expiry}|{stepping:?}")));
+    if w.trace.deaths().any(|d| matches!(d.ev, Ev::Death { panicked: true, .. })) {
+        l.inconclusive.push(format!("daemon died in a C04 scenario (seed {seed})"));
+        return;
+    }
+    let obs: Vec<(u64, &Obs)> = w.trace.obs(chan).map(|(e, o)| (e.t, o)).collect();
+    let resolved_first = obs.iter().any(|(t, o)| *t < t2 && matches!(o, Obs::Resolved(_)));
+    let removed_between = obs.iter().any(|(t, o)| *t < t2 && matches!(o, Obs::Removed(..)));
+    if !resolved_first || !removed_between {
+        l.count("second_life_precondition_not_met", 1);
+        return;
+    }
+    let how = if by_expiry { "expired" } else { "goodbye" };
+    let wit = || json!({"first_life": if first_complete { "complete announcement" } else { "lone PTR, answered on request" }, "ended_by": how, "second_lone_ptr_at_ms": t2 - EPOCH, "asked_at_ms": asked.map(|t| t - EPOCH),
+                        "trace": scen::witness_window(&w.trace, t2.saturating_sub(200), t2 + 3600, 50)});
+    l.act("F2");
+    match asked {
+        None => {
+            l.violate(Violation::new("F2", format!("F2/no-follow-up-query/instance-that-came-back/{how}"), "the instance came back with a lone PTR, but the daemon never asked for the rest").with(wit()));
+            return;
+        }
+        Some(t) if t > t2 + 500 + sl => {
+            l.violate(Violation::new("F2", format!("F2/first-follow-up-late/instance-that-came-back/{how}"), format!("first follow-up query {} ms after the PTR", t - t2)).with(wit()));
+        }
+        _ => {}
+    }
+    l.act("F1");
+    if !obs.iter().any(|(t, o)| *t >= t2 && matches!(o, Obs::Resolved(_))) {
+        l.violate(Violation::new("F1", format!("F1/never-resolved/instance-that-came-back/{how}"), "the instance came back and the daemon's question was answered, but ServiceResolved never followed").with(wit()));
+    }
+}
+
 pub fn run_one(seed: u64, enumerated: Option<(u64, u64)>, l: &mut Local) {
     let made = scenario(seed, enumerated);
     l.evaluations += 1;
@@ -408,7 +513,8 @@ pub fn run(report: &Report, tier: &Tier) {
          up to four packets (exhaustive for 4 records in the quick tier, 5 in thorough; sampled otherwise), records placed in answer or additional \
          sections, duplicated packets, foreign records interleaved, 1..3 instances, instance labels from a hostile alphabet (dots, backslashes, \
          non-ASCII, up to 63 bytes), address owners spelled in another letter case than the SRV target, PTR-only deliveries with the daemon's \
-         follow-up questions answered on try 1/2/3/never; distinct by full scenario description",
+         follow-up questions answered on try 1/2/3/never; an instance that was resolved, then withdrawn by goodbye or left to expire, and comes back \
+         with a lone PTR; distinct by full scenario description",
     );
     report.assume("no obligation for follow-up questions about names containing '.' or '\\' (they are re-encoded differently: see C15 / DESIGN §12)");
     for r in ["F1", "F1-content", "F2", "F3"] {
@@ -425,7 +531,12 @@ pub fn run(report: &Report, tier: &Tier) {
     });
     report.extra("exhaustive_orders_and_splits", json!({"records": n_rec, "orders": perms, "splits": n_splits, "cases": total, "done": done, "exhaustive": done == total}));
     let n: u64 = if tier.thorough { 300_000 } else { 5_000 };
-    run_parallel(report, n, threads(), tier.budget_s * 0.7, |i, l| {
+    run_parallel(report, n, threads(), tier.budget_s * 0.6, |i, l| {
         run_one(util::mix(seed, 0xC04_0000 + i), None, l);
+    });
+    // an instance that goes away and comes back with a lone PTR
+    let n2: u64 = if tier.thorough { 30_000 } else { 600 };
+    run_parallel(report, n2, threads(), tier.budget_s * 0.1, |i, l| {
+        second_life_case(util::mix(seed, 0xC04_2000 + i), l);
     });
 }
